@@ -102,7 +102,9 @@ CHECKS = {
        "C11_pending_work_distinct (work not yet handed over has pairwise distinct keys, each remembered with its own "
        "pending future), from the 14-clause machine invariant R (Batcher/NoDup.lean: a key is put to work only while "
        "it is not remembered; it stays remembered, mapped to the very future that stands for that work, until the "
-       "future is resolved; eviction timers only concern keys whose remembered future is resolved); plus the step "
+       "future is resolved; eviction timers only concern keys whose remembered future is resolved); "
+       "C11_sharer_adds_no_work (run level: inserting anywhere in any program a call whose key is in the retention "
+       "table at that moment changes no batch and no other caller's answer); plus the step "
        "theorems C11_shared_adds_no_work (a call whose key is remembered queues nothing, creates no future and gets "
        "that future's outcome) and C11_fresh_adds_work. The retention machine is tied to the real code by a "
        "virtual-time differential over 1..3 keys with gaps around retention_timeout and completion times, and by "
